@@ -42,7 +42,8 @@ CHECKS = {
              "sequence of literal-span tokens (code spans with every backtick configuration, links/images with every destination/title style, "
              "autolinks, bare URLs, inline HTML, template tags, comments) next to typography tokens in paragraphs, headings, list items and table "
              "cells is formatted under the typography/cleanup settings of the tier (all 8 combinations x widths x modes in thorough) and the "
-             "sequence of literal spans extracted from the output must equal that of the input.",
+             "sequence of literal spans extracted from the output must equal that of the input (code blocks, code spans, inline HTML, autolinks, "
+             "link / image destinations and titles, definitions, template tags and comments, and the reference labels that links and images USE).",
         note="Trusted: the span extractor (vf/spans.py: Reader A + a hand-written tag scanner), markdown-it-py for the fence-sufficiency clause.",
         ref="DESIGN.md §2 C04"),
     "C06": dict(
@@ -74,7 +75,8 @@ CHECKS = {
              "kind, leaves template tags untouched and never pairs quotes across a paragraph break. Document level: every token sequence over "
              "typography x inline x tag tokens in paragraphs, headings, table cells, list items, quotes and footnotes x widths x modes x other "
              "options: option-on and option-off outputs have equal length and line breaks and differ only at quote characters outside protected spans; "
-             "two blocks formatted together equal the blocks formatted separately.",
+             "two blocks formatted together equal the blocks formatted separately; reference links and images whose label holds quote characters, "
+             "in every way of writing them, with their definitions.",
         note="Trusted: the protected-span regexes in checks/c08.py (deliberately independent of the repository's patterns).",
         ref="DESIGN.md §2 C08"),
     "C09": dict(
